@@ -334,6 +334,24 @@ def inj_nway_after_occ(rnd):
         p, len(stack), first, "+".join(between) or "-"), host, bad, "plain"
 
 
+def inj_nway_after_followed_occ(rnd):
+    """The occupancy split reaches the rank through follow(): W is split by the occupancy of I,
+    Q follows it, and Q's stack then asks for an n-way split."""
+    decl = {"I": ["W"], "F": ["S"], "O": ["Q"]}
+    fs = [Acc("I", [[(1, "q"), (rnd.choice([1, 1, 2]), "s")]]), Acc("F", [[(1, "s")]])]
+    rnd.shuffle(fs)
+    s = Spec(decl, [Einsum(Acc("O", [[(1, "q")]]), [Term("times", fs)])])
+    occ = "uniform_occupancy(I.%d)" % rnd.randint(2, 5)
+    lo = ["Q1", "S", "Q0"]
+    host = _with_part(s, "O", {"W": [occ], "Q": ["follow(W)"]}, lo)
+    n = rnd.randint(2, 4)
+    parts = {"W": [occ], "Q": ["follow(W)", "nway_shape(%d)" % n]}
+    if rnd.random() < 0.5:
+        parts = dict(reversed(list(parts.items())))
+    bad = _with_part(s, "O", parts, rnd.choice([lo, ["Q2", "S", "Q1", "Q0"], None]))
+    return "nway-after-occupancy", "through-follow", host, bad, "plain"
+
+
 def inj_shape_after_flatten(rnd):
     h = _flat_host(rnd)
     if not h:
@@ -459,6 +477,7 @@ def inj_no_accel_config(rnd):
 
 INJECTORS = [inj_dup_rank, inj_undeclared, inj_repeated, inj_terms_differ, inj_flatten_combined,
              inj_flatten_one_rank, inj_flatten_index_math, inj_flatten_indep,
-             inj_flatten_flattened, inj_nway_after_occ, inj_shape_after_flatten,
+             inj_flatten_flattened, inj_nway_after_occ, inj_nway_after_followed_occ,
+             inj_shape_after_flatten,
              inj_nonflatten_on_tuple, inj_project_into_output, inj_output_only_flattened,
              inj_no_accel_config]
